@@ -161,6 +161,24 @@ let c09mm (w : string list) : string =
      | Ok _ -> "ok" | _ -> "panic")
   | _ -> failwith "c09mm: bad command"
 
+(* register-level SSSE3 routines: c09r <op> <c> <hex of the input registers> *)
+let c09r (w : string list) : string =
+  match w with
+  | [op; c; h] ->
+    let c = n_of_int (int_of_string c) and b = bytes_of_hex h in
+    let sub i = List.filteri (fun k _ -> k >= 16 * i && k < 16 * (i + 1)) b in
+    let (a, d) = (match op with
+      | "s2a" -> std_to_alt (sub 0) (sub 1)
+      | "a2s" -> alt_to_std (sub 0) (sub 1)
+      | "mulalt" -> mul_alt c (sub 0) (sub 1)
+      | "mulstd" -> mul_std c (sub 0) (sub 1)
+      | "muladd" -> muladd_std c (sub 0) (sub 1) (sub 2) (sub 3)
+      | _ -> failwith "c09r: bad op") in
+    hex_of_bytes (a @ d)
+  | ["chunks"; acc; c; hi; ho] ->
+    hex_of_bytes (ssse3_chunks (n_of_int (int_of_string c)) (acc = "1") (bytes_of_hex hi) (bytes_of_hex ho))
+  | _ -> failwith "c09r: bad command"
+
 (* ---- C11 ---- *)
 let rec nat_of_int (n : int) : nat = if n = 0 then O else S (nat_of_int (n - 1))
 let elems_of_hex (s : string) : n list =
@@ -426,6 +444,7 @@ let dispatch (line : string) : string =
   | "c08" :: w -> c08 w
   | "c09" :: w -> c09 w
   | "c09mm" :: w -> c09mm w
+  | "c09r" :: w -> c09r w
   | "c11" :: w -> c11 w
   | "c07" :: w -> c07 w
   | "c12" :: w -> c12 w
